@@ -17,7 +17,7 @@ import (
 func defaultKnobs(r *core.Run) Knobs {
 	return Knobs{MaxISD: 2, MaxCore: 3, MaxNonCore: 5, MaxPeer: 3, MaxRouters: 3,
 		ReuseLocal: r.Chance("reuselocal", 1, 2), RcvBuf: 1 << (10 + r.Choice("rcvbuf", 8)), SndBuf: 3 << (9 + r.Choice("sndbuf", 8)),
-		Batch: 1 << r.Choice("batch", 3)} // small: the sequential engine never batches, and the pool is sized by it
+		Batch: 1 << r.Choice("batch", 3), ConcBeacon: r.Chance("concbeacon", 1, 2)} // small: the sequential engine never batches, and the pool is sized by it
 }
 
 func hostAddr(h *Host) addr.Host { return addr.HostIP(h.Addr) }
